@@ -308,6 +308,26 @@ def end_to_end(ctx, cfg, d, field, u0s, t0, hs, sigp="grid"):
     return sol, traj, scale2, aux
 
 
+def probe_mle_init_singular(ctx, field):
+    """solver_mle with an initial-constraint update on an *exact* initial state (innovation covariance exactly zero, residual
+    exactly zero because the Taylor coefficients are consistent): the exact posterior is the unchanged state; the
+    quasi-MLE term is 0/0.  The real code whitens with solve_tril and returns NaN, which poisons every later output scale."""
+    import jax.numpy as jnp
+
+    for fact in ("dense", "iso", "bd"):
+        cfg = sm.Config(fact=fact, solver="mle", lin="ts0", q=2, init="exact", constraint_init=True)
+        objs = sm.build(cfg, field, [np.array([0.5, -0.25])], 0.25)
+        st = objs["solver"].init(jnp.asarray(0.25), objs["prior"], damp=0.0)
+        _c, running, num = st.auxiliary
+        ok_state = bool(np.all(np.isfinite(np.asarray(st.u.mean_flat)))) and bool(np.all(np.isfinite(np.asarray(st.u.cholesky_flat))))
+        if not ok_state:
+            ctx.violation(f"mle:init-constraint:exact-state:nan-state:{fact}", "solver_mle.init returns a non-finite state for an exact initial state with constraint_init", {"config": cfg.key()})
+        if not np.all(np.isfinite(np.asarray(running))):
+            ctx.violation("mle:init-constraint:singular-innovation:nan", "solver_mle.init with constraint_init on an exact (zero-covariance) initial state: the initial quasi-MLE term is 0/0 and the running output scale becomes NaN",
+                          {"config": cfg.key(), "field": field.describe(), "running": str(np.asarray(running))})
+        ctx.case({"probe": "mle-init-singular", "fact": fact})
+
+
 def run(ctx):
     import jax
 
@@ -340,6 +360,7 @@ def run(ctx):
     for cfg in corpus_cfgs:
         refine_steps(ctx, cfg, 2, cf, [np.array([0.5, -0.25])], 0.25, [0.125, 0.046875], sigp="step")
         ctx.count("corpus-config")
+    probe_mle_init_singular(ctx, cf)
     n = ctx.n(14, 240)
     for it in range(n):
         cfg, d, order = random_config(ctx, "filter", it)
